@@ -38,6 +38,23 @@ func (l *filterRuleList) matches(name string) bool {
 	return false
 }
 
+// ParseFilterRules turns the rules given on the command line into the
+// filter list that Transfer.Do applies while building the file list.
+func ParseFilterRules(rules []string) (*filterRuleList, error) {
+	var l filterRuleList
+	for _, line := range rules {
+		fr, err := parseFilter(line)
+		if err != nil {
+			return nil, err
+		}
+		l.addRule(fr)
+		if fr.flag&filtruleWild != 0 {
+			return nil, fmt.Errorf("wildcard filter rules not yet implemented: %q", line)
+		}
+	}
+	return &l, nil
+}
+
 // exclude.c:recv_filter_list
 func RecvFilterList(c *rsyncwire.Conn) (*filterRuleList, error) {
 	var l filterRuleList
